@@ -166,10 +166,29 @@ CaseOf(c) ==
                 [label |-> "hand", tp |-> SourcesOf(c, TRUE), xcalls |-> [id \in {} |-> 0]]>>,
      expect |-> [ok |-> TRUE, out |-> Expected(c), err |-> "", calls |-> [id \in {} |-> 0]]]
 
-Init == cs \in Cases
+\* ---- tag syntax with dashes inside verbatim ------------------------------------------------------
+\* The body of verbatim is not parsed.  Whether a dash written there belongs to C13 at all can be argued: either
+\* the body comes out as written (alt), or - where the engine treats the dashed delimiter as one - the dashed body
+\* and the hand-trimmed body come out alike.  Anything else is a dash with an effect of its own.
+VbWs(w) == CASE w = "sp" -> <<cSP, cSP>> [] w = "lf" -> <<cLF>> [] w = "mix" -> <<cSP, cTAB, cCR, cLF>>
+VbOpen(kind, d) == (IF kind = "print" THEN <<123, 123>> ELSE <<123, 37>>) \o (IF d THEN <<45>> ELSE <<>>)
+VbClose(kind, d) == (IF d THEN <<45>> ELSE <<>>) \o (IF kind = "print" THEN <<125, 125>> ELSE <<37, 125>>)
+VbInner(kind) == IF kind = "print" THEN <<cSP, 120, cSP>> ELSE <<cSP, 105, 102, cSP, 120, cSP>>
+VbBody(c, hand) == <<97>> \o (IF hand /\ c.dl THEN <<>> ELSE VbWs(c.ws)) \o VbOpen(c.kind, c.dl /\ ~hand) \o VbInner(c.kind)
+                   \o VbClose(c.kind, c.dr /\ ~hand) \o (IF hand /\ c.dr THEN <<>> ELSE VbWs(c.ws)) \o <<98>>
+VbCases == {[vb |-> kind, kind |-> kind, dl |-> dl, dr |-> dr, ws |-> ws] : kind \in {"print", "block"}, dl \in BOOLEAN, dr \in BOOLEAN, ws \in {"sp", "lf", "mix"}}
+VbTp(c, hand) == ("main" :> <<Text(<<65, cSP>>), Verbatim(VbBody(c, hand)), Text(<<cSP, 66>>)>>)
+CaseOfVb(c) ==
+    [prop |-> "C13", key |-> ToJson(c), tags |-> {"verbatim-tags", "vb:" \o c.kind, "ndash:" \o ToString((IF c.dl THEN 1 ELSE 0) + (IF c.dr THEN 1 ELSE 0))},
+     entry |-> "main", ctx |-> Ctx, rel |-> "same",
+     runs |-> <<[label |-> "dashed", tp |-> Sources(VbTp(c, FALSE), LMin), xcalls |-> [id \in {} |-> 0], alt |-> <<65, cSP>> \o VbBody(c, FALSE) \o <<cSP, 66>>],
+                [label |-> "hand", tp |-> Sources(VbTp(c, TRUE), LMin), xcalls |-> [id \in {} |-> 0], alt |-> <<65, cSP>> \o VbBody(c, TRUE) \o <<cSP, 66>>]>>,
+     expect |-> [ok |-> TRUE, anyoutcome |-> TRUE, out |-> <<>>, noout |-> TRUE, err |-> "", calls |-> [id \in {} |-> 0]]]
+
+Init == cs \in Cases \cup VbCases
 Next == UNCHANGED cs
 Spec == Init /\ [][Next]_cs
-Emit == PrintT(ToJson(CaseOf(cs)))
+Emit == PrintT(ToJson(IF "vb" \in DOMAIN cs THEN CaseOfVb(cs) ELSE CaseOf(cs)))
 
 \* model-level: with no dash the two formulations are the same source, and a dash never
 \* removes anything but whitespace from the expected output
@@ -178,5 +197,5 @@ OnlyWhitespaceRemoved ==
     LET full == Subst(Ref(cs).out, AllTexts([cs EXCEPT !.D = {}]))
         NonWs(s) == SelectSeq(s, LAMBDA ch : ch \notin WS)
     IN NonWs(Expected(cs)) = NonWs(full)
-ModelOK == Ref(cs).ok /\ NoDashIdentity /\ OnlyWhitespaceRemoved
+ModelOK == "vb" \in DOMAIN cs \/ (Ref(cs).ok /\ NoDashIdentity /\ OnlyWhitespaceRemoved)
 =============================================================================
